@@ -417,12 +417,12 @@ class SccContext:
         self.active_caption.set_cursor_at(ROLL_UP_BASE_ROW)
 
     elif control_code is SccControlCode.DER:
-      # Delete to End of Row (Paint-On)
+      # Delete to End of Row
       # The DER may be issued from any point on a row to delete all displayable characters, transparent
       # spaces, and mid-row codes from (and including) the current cell to the end of the row.
-      # Not used in this implementation since this SCC reader does not map the text overlapping into
-      # the model (i.e. a row is erased when a PAC is received, so before a new caption is written onto it).
-      pass
+      processed_caption = self.get_caption_to_process()
+      if processed_caption is not None:
+        processed_caption.get_current_line().delete_to_end()
 
     elif control_code is SccControlCode.BS:
       # Backspace
